@@ -924,6 +924,11 @@ pub fn drive_debug<X: fmt::Debug>(
         let want = format!("{:+08.3?}", Ref(&a, reference));
         let _ = take();
         line(case, "dbgf", i, -1, &format!("{}\t{}", hex(&got), hex(&want)), "-");
+        // debug-hex flag together with the alternate flag
+        let got = format!("{a:#x?}");
+        let want = format!("{:#x?}", Ref(&a, reference));
+        let _ = take();
+        line(case, "dbgx", i, -1, &format!("{}\t{}", hex(&got), hex(&want)), "-");
     }
 }
 
